@@ -260,18 +260,31 @@ def op_load_outcome(c):
     os.close(fd)
     _AUDIT["events"] = []
     _AUDIT["data"] = bytes(c["bytes"])
+    import signal
+
+    class _TooLong(BaseException):
+        pass
+
+    def _alarm(signum, frame):
+        raise _TooLong()
     t0 = time.time()
     cls, name = 0, ""
     _AUDIT["on"] = True
+    old_handler = signal.signal(signal.SIGALRM, _alarm)
+    signal.setitimer(signal.ITIMER_REAL, c.get("limit_s", 60))      # a runaway Python-level loop is cut here and reported through "ms"
     try:
         r = load_module(path)
         if not (isinstance(r, tuple) and len(r) == 7):
             cls, name = 2, "returned " + type(r).__name__
     except ImportError:
         cls = 1
+    except _TooLong:
+        cls, name = 3, "still running after the time limit"
     except BaseException as e:
         cls, name = 2, type(e).__name__
     finally:
+        signal.setitimer(signal.ITIMER_REAL, 0)
+        signal.signal(signal.SIGALRM, old_handler)
         _AUDIT["on"] = False
     dt = time.time() - t0
     os.unlink(path)
